@@ -1,4 +1,4 @@
-import FeatherModel.Lemmas.DescriptorArgs
+import FeatherModel.Lemmas.DescriptorDoc
 import FeatherModel.Lemmas.InnerNames
 import FeatherModel.Thm.C11
 
@@ -67,7 +67,7 @@ theorem lax_class_names_rejected :
   decide
 
 example : parseMethod (jstr "(I[[Ljava/lang/Object;D)V") =
-    some ([.prim .I, .arr 2 (.obj (jstr "java/lang/Object")), .prim .D], none) := by decide
+    some ([.prim .I, .arr 2 (.obj (jstr "java/lang/Object")), .prim .D], none) := by decide +kernel
 
 /-! ## printing and parsing are mutually inverse -/
 
@@ -87,7 +87,10 @@ theorem parse_print_return {s : JStr} {t : Option Ty} (h : parseReturn s = some 
   printReturn_of_ReturnTy ((parseReturn_iff s t).mp h)
 
 /-- print then parse reproduces the structure, for every well-formed structure (`Array` dimension 1..255, class
-names valid object class names); in particular the printer's `assert!` does not fire on well-formed values -/
+names valid object class names); in particular the printer's `assert!` does not fire on well-formed values.
+`wf` is not an ad-hoc restriction: by `wf_iff_denoted` it is exactly "the structure of some descriptor"; the two kinds
+of Rust values outside it are exhibited by `print_parse_dim0_witness` (documented in the Rust doc comment of `Type`:
+"you should never construct the `Type::Array` variant with a dimension of zero") and `print_assert_witness`. -/
 theorem print_parse {t : Ty} (h : t.wf = true) : ∃ s, printTy t = some s ∧ parseField s = some t := by
   obtain ⟨s, h1, h2⟩ := FieldTy_of_wf h
   exact ⟨s, h1, (parseField_iff s t).mpr h2⟩
@@ -119,6 +122,21 @@ theorem parse_wf {s : JStr} {t : Ty} (h : parseField s = some t) : t.wf = true :
       | obj hn => exact (validObj_iff _).mpr hn
     simp [Ty.wf, h1, h2, hb]
 
+/-- the well-formed structures are exactly the structures the grammar assigns to some descriptor -/
+theorem wf_iff_denoted (t : Ty) : t.wf = true ↔ ∃ s, FieldTy s t := by
+  constructor
+  · intro h
+    obtain ⟨s, _, hf⟩ := FieldTy_of_wf h
+    exact ⟨s, hf⟩
+  · intro ⟨s, hf⟩
+    exact parse_wf ((parseField_iff s t).mpr hf)
+
+/-- outside `wf` (1): `Type::Array(0, ArrayType::D)` is a Rust value different from `Type::D`; it prints as `D`, which
+parses to `Type::D` -/
+theorem print_parse_dim0_witness :
+    (Ty.arr 0 (.prim .D)).wf = false ∧ printTy (.arr 0 (.prim .D)) = some (jstr "D") ∧
+    parseField (jstr "D") = some (.prim .D) ∧ Ty.arr 0 (.prim .D) ≠ .prim .D := by decide
+
 /-- a descriptor denotes one structure and a structure has one descriptor -/
 theorem grammar_functional {s s' : JStr} {t t' : Ty} (h : FieldTy s t) (h' : FieldTy s' t') : s = s' ↔ t = t' := by
   constructor
@@ -141,7 +159,7 @@ theorem print_obj_assert_unreachable {n : JStr} (h : validObj n = true) : printT
   have hn := (validObj_iff n).mp h
   simp [printTy, startsWithBracket_false_of_not_mem (ClassName_no_bracket hn)]
 
-/-- …but the one in the `ArrayType::Object` arm can: that slot holds a `ClassName`, `ClassName::try_from("[I")`
+/-- outside `wf` (2): …but the one in the `ArrayType::Object` arm can: that slot holds a `ClassName`, `ClassName::try_from("[I")`
 succeeds, and `ParsedFieldDescriptor(Type::Array(1, ArrayType::Object("[I"))).write()` panics.  (The correspondence
 run replays this: request `desc-print field (arr 1 (obj #5b.49))`, both sides answer `ok panic`.) -/
 theorem print_assert_witness :
@@ -154,18 +172,31 @@ theorem dims_cap_accept {p : JStr} {b : Base} (h : BaseTy p b) :
     parseField (List.replicate 255 LBRACKET ++ p) = some (.arr 255 b) :=
   (parseField_iff _ _).mpr (FieldTy_of_flat ⟨by omega, by omega, p, h, rfl⟩)
 
-/-- … 256 or more are rejected, whatever follows -/
+/-- … 256 or more are rejected (an error: no wrap-around of the `u8` counter, no truncation, no panic), whatever
+follows; as a field, as a return descriptor and as the first parameter of a method descriptor.  This is the JVMS rule
+(§4.3.2: "valid only if it represents 255 or fewer dimensions"), so the cap is *not* a deviation from the grammar:
+`parse_accepts_iff` is stated against `FieldTy`, which carries the same bound. -/
 theorem dims_cap_reject (n : Nat) (h : 256 ≤ n) (s : JStr) :
-    parseField (List.replicate n LBRACKET ++ s) = none ∧ parseReturn (List.replicate n LBRACKET ++ s) = none := by
+    parseField (List.replicate n LBRACKET ++ s) = none ∧ parseReturn (List.replicate n LBRACKET ++ s) = none ∧
+    parseMethod (LPAREN :: (List.replicate n LBRACKET ++ s)) = none := by
   have hb := readBrackets_over n 0 s (by omega) (by omega)
   have hr : readFieldType (List.replicate n LBRACKET ++ s) = none := by simp [readFieldType, hb]
-  refine ⟨by simp [parseField, hr], ?_⟩
-  cases n with
-  | zero => omega
-  | succ n =>
-    rw [List.replicate_succ, List.cons_append] at hr ⊢
-    simp only [parseReturn, readReturn, hr]
-    rw [if_neg (by decide)]
+  refine ⟨by simp [parseField, hr], ?_, ?_⟩
+  · cases n with
+    | zero => omega
+    | succ n =>
+      rw [List.replicate_succ, List.cons_append] at hr ⊢
+      simp only [parseReturn, readReturn, hr]
+      rw [if_neg (by decide)]
+  · simp only [parseMethod, if_true, readParams_over n h s]
+
+/-- the other JVMS validity rule for descriptors, §4.3.3 "total length of 255 or less", is *not* enforced by
+`MethodDescriptorSlice::parse`: 256 `int` parameters parse.  (It is not part of the grammar the property names;
+recorded so that the comparison with JVMS is complete.  `get_arguments_size` overflows its `u8` on such input, see
+`args_size_spec`.) -/
+theorem method_length_limit_not_enforced :
+    parseMethod (LPAREN :: (List.replicate 256 cI ++ jstr ")V")) = some (List.replicate 256 (.prim .I), none) := by
+  decide +kernel
 
 theorem dims_cap :
     parseField (List.replicate 255 LBRACKET ++ jstr "I") = some (.arr 255 (.prim .I)) ∧
@@ -188,7 +219,7 @@ theorem args_size_spec {s : JStr} {ps : List Ty} {rt : Option Ty} (h : MethodTy 
     simp only [argsSize, if_true]
     exact argsLoop_params hp _ 1 r (by simp) (by omega)
 
-example : argsSize (jstr "(IDLjava/lang/Thread;[J)Ljava/lang/Object;") = .ok 6 := by decide
+example : argsSize (jstr "(IDLjava/lang/Thread;[J)Ljava/lang/Object;") = .ok 6 := by decide +kernel
 
 /-! ## name predicates = their declarative specifications -/
 
@@ -218,36 +249,91 @@ theorem valid_obj_not_bracket {s : JStr} (h : validObj s = true) : s.head? ≠ s
   simp at this
 
 /-- class names **as coded**: an object class name or anything that starts with `[` -/
-theorem valid_class_spec (s : JStr) : validClass s = true ↔ ClassName s ∨ s.head? = some LBRACKET :=
+theorem valid_class_as_coded (s : JStr) : validClass s = true ↔ ClassName s ∨ s.head? = some LBRACKET :=
   validClass_iff s
 
 /-- array class names **as coded**: anything that starts with `[` -/
-theorem valid_arr_spec (s : JStr) : validArr s = true ↔ s.head? = some LBRACKET := validArr_iff s
+theorem valid_arr_as_coded (s : JStr) : validArr s = true ↔ s.head? = some LBRACKET := validArr_iff s
 
-/-- what holds of the documented meaning ("`[` followed by a field descriptor"): every array field descriptor is
-accepted as `ArrClassName` and as `ClassName` … -/
-theorem arr_name_documented_partial {s : JStr} (h : ArrayDescriptor s) : validArr s = true ∧ validClass s = true := by
-  obtain ⟨d, b, hf⟩ := h
-  obtain ⟨h1, _, p, _, hs⟩ := flat_of_FieldTy hf
-  have : s.head? = some LBRACKET := by
-    subst hs
-    cases d with
-    | zero => omega
-    | succ d => simp [List.replicate_succ]
+/-- every array field descriptor is accepted as `ArrClassName` and as `ClassName` (the half of the documented
+meaning that holds everywhere) -/
+theorem arr_name_complete {s : JStr} (h : ArrayDescriptor s) : validArr s = true ∧ validClass s = true := by
+  have := ArrayDescriptor_head h
   exact ⟨(validArr_iff s).mpr this, (validClass_iff s).mpr (Or.inr this)⟩
 
-/-- … but the converse fails: `[` alone and `[x` are accepted although they are not array field descriptors (the
-repo's own `#[ignore]`d tests `invalid_arr_class_names` / `invalid_class_names` list them as to-be-rejected) -/
+/-- `ArrClassName` against its **documentation** ("Array class names always start with `[` followed by a field
+descriptor" / error text "must be an array field descriptor").  PARTIAL: proved on `ArrNameDomain` = all strings except
+those that start with `[` without being an array field descriptor; there the code says "valid" for every string
+(`arr_name_gap`, `arr_name_bracket_only_witness`). -/
+theorem valid_arr_doc_partial (s : JStr) (h : ArrNameDomain s) : validArr s = true ↔ ArrayDescriptor s :=
+  ⟨fun hv => h ((validArr_iff s).mp hv), fun hd => (arr_name_complete hd).1⟩
+
+/-- `ClassName` against its documentation (object class name or array class name), same domain.  PARTIAL. -/
+theorem valid_class_doc_partial (s : JStr) (h : ArrNameDomain s) : validClass s = true ↔ AnyClassName s := by
+  rw [validClass_iff]
+  constructor
+  · intro hv
+    cases hv with
+    | inl hc => exact Or.inl hc
+    | inr hb => exact Or.inr (h hb)
+  · intro hv
+    cases hv with
+    | inl hc => exact Or.inl hc
+    | inr ha => exact Or.inr (ArrayDescriptor_head ha)
+
+/-- the domain is decidable: "does not start with `[`, or the field-descriptor parser accepts it" (this is what the
+oracles compute; the harness computes it with its own recogniser) -/
+theorem arr_name_domain_iff (s : JStr) :
+    ArrNameDomain s ↔ (startsWithBracket s = true → (parseField s).isSome = true) := by
+  unfold ArrNameDomain
+  rw [startsWithBracket_iff]
+  constructor
+  · intro h hb; exact ((ArrayDescriptor_iff_parse s).mp (h hb)).2
+  · intro h hb; exact (ArrayDescriptor_iff_parse s).mpr ⟨hb, h hb⟩
+
+/-- the gap, exactly: the strings accepted as array class names against the documentation are all the strings that
+start with `[` and are not field descriptors (none is rejected wrongly) -/
+theorem arr_name_gap (s : JStr) :
+    (validArr s = true ∧ ¬ ArrayDescriptor s) ↔ (s.head? = some LBRACKET ∧ parseField s = none) := by
+  rw [validArr_iff, ArrayDescriptor_iff_parse]
+  constructor
+  · intro ⟨hb, hn⟩
+    refine ⟨hb, ?_⟩
+    cases hp : parseField s with
+    | none => rfl
+    | some t => exact absurd ⟨hb, by rw [hp]; rfl⟩ hn
+  · intro ⟨hb, hp⟩
+    exact ⟨hb, fun ⟨_, hq⟩ => by rw [hp] at hq; cases hq⟩
+
+example : ArrNameDomain (jstr "[[La/b;") ∧ ArrNameDomain (jstr "a/b") ∧ ArrNameDomain [] := by
+  refine ⟨(arr_name_domain_iff _).mpr (by decide), (arr_name_domain_iff _).mpr (by decide),
+    (arr_name_domain_iff _).mpr (by decide)⟩
+
+/-- WITNESS for the two `_partial` theorems: `[` alone and `[x` are accepted as `ArrClassName` and as `ClassName`
+although they are neither array field descriptors nor object class names (the repo's own `#[ignore]`d tests
+`invalid_arr_class_names` / `invalid_class_names` list `[` and `[V` as to-be-rejected) -/
 theorem arr_name_bracket_only_witness :
     validArr (jstr "[") = true ∧ validClass (jstr "[") = true ∧ ¬ ArrayDescriptor (jstr "[") ∧
-    validArr (jstr "[x") = true ∧ ¬ ArrayDescriptor (jstr "[x") := by
-  refine ⟨by decide, by decide, ?_, by decide, ?_⟩
-  · intro ⟨d, b, h⟩
-    have := (parseField_iff _ _).mpr h
-    revert this; decide
-  · intro ⟨d, b, h⟩
-    have := (parseField_iff _ _).mpr h
-    revert this; decide
+    ¬ AnyClassName (jstr "[") ∧ validArr (jstr "[x") = true ∧ ¬ ArrayDescriptor (jstr "[x") := by
+  have h1 : ¬ ArrayDescriptor (jstr "[") := fun h =>
+    absurd ((ArrayDescriptor_iff_parse _).mp h).2 (by decide)
+  have h2 : ¬ ArrayDescriptor (jstr "[x") := fun h =>
+    absurd ((ArrayDescriptor_iff_parse _).mp h).2 (by decide)
+  refine ⟨by decide, by decide, h1, ?_, by decide, h2⟩
+  intro h
+  cases h with
+  | inl hc => exact absurd ((validObj_iff _).mpr hc) (by decide)
+  | inr ha => exact h1 ha
+
+/-- the descriptor *newtypes* (`FieldDescriptor`, `MethodDescriptor`, `ReturnDescriptor`) do not validate at all:
+their `check_valid` is `Ok(())` with a `TODO: parse the desc and fail if invalid`, so `FieldDescriptor::is_valid("foo")`
+and `TryFrom` succeed and only `parse()` rejects (the repo's `#[ignore]`d tests `invalid_field_descriptors`,
+`invalid_method_descriptors`, `invalid_return_descriptors` list this).  The property statement speaks about *parsing*
+for descriptors, which is exact (`parse_accepts_iff`); this witness records the difference between the type and its
+parser. -/
+theorem descriptor_newtype_unchecked_witness :
+    validDescriptorNewtype (jstr "foo") = true ∧ parseField (jstr "foo") = none ∧
+    parseMethod (jstr "foo") = none ∧ parseReturn (jstr "foo") = none := by decide
 
 /-- `ArrClassNameSlice::dimension` on array descriptors -/
 theorem dimension_spec {s : JStr} {d : Nat} {b : Base} (h : FieldTy s (.arr d b)) : dimension s = some d :=
@@ -257,10 +343,12 @@ theorem dimension_spec {s : JStr} {d : Nat} {b : Base} (h : FieldTy s (.arr d b)
 `as u8`, then `assert_ne!(dimension, 0)`) panics on it -/
 theorem dimension_256_witness :
     validArr (List.replicate 256 LBRACKET) = true ∧ dimension (List.replicate 256 LBRACKET) = none := by
-  refine ⟨by decide, ?_⟩
-  have := countBrackets_replicate 256 [] (by simp)
-  simp only [List.append_nil] at this
-  simp [dimension, this]
+  refine ⟨rfl, ?_⟩
+  have h := countBrackets_replicate 256 [] (by simp)
+  rw [List.append_nil] at h
+  unfold dimension
+  rw [h]
+  rfl
 
 /-- `FieldDescriptor::from_class` -/
 theorem from_class_spec (n : JStr) :
@@ -271,7 +359,7 @@ theorem from_class_spec (n : JStr) :
     simp only [fromClass, this, Bool.false_eq_true, if_false]
     exact FieldTy.obj h
   · intro h
-    have := (validArr_iff n).mp (arr_name_documented_partial h).1
+    have := (validArr_iff n).mp (arr_name_complete h).1
     simp [fromClass, (startsWithBracket_iff n).mpr this]
 
 /-! ## inner-class split / join (shared with C11) -/
